@@ -1,6 +1,7 @@
 package engine
 
 import (
+	"go/token"
 	"go/types"
 	"fmt"
 	"os"
@@ -97,10 +98,72 @@ func calleePaths(f *ssa.Function) []calleePath {
 
 // inlineCall returns the forked successor states for an inlinable call, or nil when the call is not expanded.
 func (q *PathQuery) inlineCall(st *PathState, call *ssa.Call) []*PathState {
+	return q.inlineCommon(st, call, call)
+}
+
+// inlineDefers expands, at the function's RunDefers, the deferred closures and small repository functions whose defer
+// statement lies on the path (last deferred first): a clean-up written as `defer func() { if err != nil { … } }()`
+// is judged with the value the captured variable holds when the function returns.
+func (q *PathQuery) inlineDefers(st *PathState, cur *ssa.BasicBlock) []*PathState {
+	var ds []*ssa.Defer
+	seen := map[int]bool{}
+	for _, bi := range append(append([]int{}, st.Blocks...), cur.Index) {
+		if seen[bi] || bi < 0 || bi >= len(q.Fn.Blocks) {
+			continue
+		}
+		seen[bi] = true
+		b := q.Fn.Blocks[bi]
+		for _, in := range b.Instrs {
+			if d, ok := in.(*ssa.Defer); ok {
+				ds = append(ds, d)
+			}
+		}
+	}
+	if len(ds) == 0 {
+		return nil
+	}
+	states := []*PathState{st}
+	expanded := false
+	for i := len(ds) - 1; i >= 0; i-- {
+		var next []*PathState
+		for _, s := range states {
+			if forks := q.inlineCommon(s, ds[i], nil); forks != nil {
+				expanded = true
+				next = append(next, forks...)
+			} else {
+				next = append(next, s)
+			}
+		}
+		states = next
+		if len(states) > 256 {
+			return nil
+		}
+	}
+	if !expanded {
+		return nil
+	}
+	return states
+}
+
+// DeferExpanded reports whether a path query over d's function expands d's callee at the function's RunDefers (so that
+// a rule may leave the judgement of a deferred clean-up to the events of the expanded body instead of the defer site).
+func DeferExpanded(d *ssa.Defer) bool {
+	f := CalleeFn(d)
+	if f == nil || f == d.Parent() {
+		return false
+	}
+	_, direct := d.Call.Value.(*ssa.MakeClosure)
+	if !(inlinable(f) || direct && inlinableFn(f, true)) {
+		return false
+	}
+	return calleePaths(f) != nil
+}
+
+func (q *PathQuery) inlineCommon(st *PathState, call ssa.CallInstruction, retKey *ssa.Call) []*PathState {
 	f := CalleeFn(call)
-	mc, direct := call.Call.Value.(*ssa.MakeClosure)
+	mc, direct := call.Common().Value.(*ssa.MakeClosure)
 	if os.Getenv("FRPSA_DEBUG_INLINE") != "" {
-		fmt.Fprintf(os.Stderr, "inline? %v callee=%v direct=%v value=%T\n", call, f, direct, call.Call.Value)
+		fmt.Fprintf(os.Stderr, "inline? %v callee=%v direct=%v value=%T\n", call, f, direct, call.Common().Value)
 	}
 	if f == q.Fn || !(inlinable(f) || direct && inlinableFn(f, true)) {
 		return nil
@@ -113,7 +176,7 @@ func (q *PathQuery) inlineCall(st *PathState, call *ssa.Call) []*PathState {
 		return nil
 	}
 	// bind parameters to the (resolved) arguments
-	args := call.Call.Args
+	args := call.Common().Args
 	bind := make(map[*ssa.Parameter]ssa.Value, len(st.bind)+len(f.Params))
 	for k, v := range st.bind {
 		bind[k] = v
@@ -136,6 +199,20 @@ func (q *PathQuery) inlineCall(st *PathState, call *ssa.Call) []*PathState {
 				}
 			}
 		}
+		// a load of a variable captured by reference: what the caller's cell holds at the call
+		if u, ok := v.(*ssa.UnOp); ok && u.Op == token.MUL && direct {
+			if fv, ok := u.X.(*ssa.FreeVar); ok {
+				for i, x := range f.FreeVars {
+					if x == fv && i < len(mc.Bindings) {
+						if al, ok := mc.Bindings[i].(*ssa.Alloc); ok {
+							if cv, ok := st.mem[al]; ok {
+								return cv
+							}
+						}
+					}
+				}
+			}
+		}
 		return v
 	}
 	var out []*PathState
@@ -145,6 +222,18 @@ func (q *PathQuery) inlineCall(st *PathState, call *ssa.Call) []*PathState {
 		for _, l := range cp.lits {
 			nl := Lit{Op: l.Op, X: subst(l.X), Y: subst(l.Y), Val: l.Val, At: l.At}
 			dup := false
+			if os.Getenv("FRPSA_DEBUG_INLINE") != "" && direct {
+				fmt.Fprintf(os.Stderr, "  lit %v(%T) == %v : %v  [was %v] mem=%d\n", nl.X, nl.X, nl.Y, nl.Val, l.X, len(st.mem))
+			}
+			if nl.Op == token.EQL && IsNilConst(nl.Y) && nl.X != l.X {
+				if isNil, known := st.NilFact(nl.X); known {
+					if isNil != nl.Val {
+						feasible = false
+						break
+					}
+					dup = true
+				}
+			}
 			for _, e := range lits {
 				if sameTest(e, nl) {
 					if e.Val != nl.Val {
@@ -180,7 +269,9 @@ func (q *PathQuery) inlineCall(st *PathState, call *ssa.Call) []*PathState {
 		for i, v := range cp.rets {
 			rv[i] = subst(v)
 		}
-		rets[call] = rv
+		if retKey != nil {
+			rets[retKey] = rv
+		}
 		ns := &PathState{Lits: lits, Events: evs, phi: st.phi, mem: st.mem, loads: st.loads, rets: rets, bind: bind,
 			inl: st.inl + fmt.Sprintf("%p:%d;", call, pi), armed: st.armed, ArmedAt: st.ArmedAt}
 		out = append(out, ns)
